@@ -322,7 +322,7 @@ CONTRACTS["ufo2ft.featureWriters.cursFeatureWriter:CursFeatureWriter._firstAncho
 # contract (called here through it); the clauses below restate its postcondition for the glyph of every record.
 MCS = "ufo2ft.featureWriters.cursFeatureWriter:CursFeatureWriter._makeCursiveStatements"
 VAL2 = Tuple(Opt(Ref(NODE)), Opt(Ref(NODE)))
-MCS_LOCALS = {"cursiveAnchors": Dict(Ref(NODE), VAL2), "statements": List(Ref(NODE)), "src": List(INT), "K0": List(Ref(NODE)), "c0": Dict(Ref(NODE), VAL2)}
+MCS_LOCALS = {"cursiveAnchors": Dict(Ref(NODE), VAL2), "statements": List(Ref(NODE)), "src": List(INT), "K0": List(Ref(NODE)), "c0": Dict(Ref(NODE), VAL2), "s0": List(INT)}
 MCS_LOOP1 = "for glyph in glyphs"
 MCS_LOOP2 = "for (glyphName, anchors) in cursiveAnchors.items()"
 MCS_PUT = "cursiveAnchors[ast.GlyphName(glyph.name)] = (entryAnchor, exitAnchor)"
@@ -348,9 +348,10 @@ def _present(g, nm):
 
 
 def _coords(node, g, nm):
-    """the node's coordinates: the exported glyph's own first anchor of the name, else (fall-back) an anchor of the name of the font's glyph — rounded"""
+    """the node's coordinates: the exported glyph's own first anchor of the name, else (fall-back) an anchor of the name of the font's glyph — rounded
+    (only the x / y fields of the node are read: no field that the function writes, so the fact survives the creation of further nodes as it is)"""
     GA, FA = f"{g}.anchors", f"{_FG}[{g}.name].anchors"
-    return (f"({node}.kind == 'Anchor' and ite({_has_own(g, nm)},"
+    return (f"(ite({_has_own(g, nm)},"
             f" any({GA}[f].name == {nm}Name and all({GA}[b].name != {nm}Name for b in range(f)) and {node}.x == c18_round({GA}[f].x) and {node}.y == c18_round({GA}[f].y) for f in range(len({GA}))),"
             f" any({FA}[b].name == {nm}Name and {node}.x == c18_round({FA}[b].x) and {node}.y == c18_round({FA}[b].y) for b in range(len({FA})))))")
 
@@ -373,7 +374,7 @@ def _entry(k, v, g):
 
 _ORDER = "all(all(implies(p1 < p2, src[p1] < src[p2]) for p2 in range(len(src))) for p1 in range(len(src)))"
 _V = f"cursiveAnchors[{_KS}[p]]"
-MCS_REGISTERED = False  # WORK IN PROGRESS (notes/C18.requests.md 13): not part of the registered check until the allocation fact is available
+MCS_REGISTERED = True  # (engine request C18-13, done: references inside tuple-typed call results are allocated)
 MCS_COMMON = dict(
     props=["C18"] if MCS_REGISTERED else [],
     params={"self": Ref("c18_CW"), "glyphs": List(Ref("c18_UGlyph")), "entryName": STR, "exitName": STR},
@@ -385,25 +386,29 @@ MCS_COMMON = dict(
     modifies=["c17_Node.kind", "c17_Node.glyph", "c17_Node.glyphclass", "c17_Node.entryAnchor", "c17_Node.exitAnchor"],
     locals=MCS_LOCALS,
     # src[k]: the position (in `glyphs`) of the glyph of record k; K0 / c0: the dict's key list / the dict at the start of this iteration — ghosts
-    ghost_vars={"src": (List(INT), "[]"), "K0": (List(Ref(NODE)), "[]"), "c0": (Dict(Ref(NODE), VAL2), "{}")},
-    ghost={MCS_PUT: ["src = src + [i]"], MCS_GET: ["K0 = list(cursiveAnchors) + []", "c0 = {**cursiveAnchors}"]},
+    ghost_vars={"src": (List(INT), "[]"), "K0": (List(Ref(NODE)), "[]"), "c0": (Dict(Ref(NODE), VAL2), "{}"), "s0": (List(INT), "[]")},
+    ghost={MCS_PUT: ["src = src + [i]"], MCS_GET: ["K0 = list(cursiveAnchors) + []", "c0 = {**cursiveAnchors}", "s0 = src + []"]},
     hints={MCS_PUT: [
         # the one new entry sits at the end; the earlier entries are untouched
         f"len({_KS}) == len(K0) + 1 and cursiveAnchors[{_KS}[len(K0)]][0] == entryAnchor and cursiveAnchors[{_KS}[len(K0)]][1] == exitAnchor",
         f"{_KS}[len(K0)].kind == 'GlyphName' and {_KS}[len(K0)].glyph == glyph.name and allocated({_KS}[len(K0)])",
         f"all({_KS}[p] == K0[p] and cursiveAnchors[K0[p]] == c0[K0[p]] for p in range(len(K0)))",
+        "len(src) == len(s0) + 1 and len(s0) == len(K0) and src[len(K0)] == i and all(src[p] == s0[p] for p in range(len(s0)))",
     ]},
 )
 # shared by the variants: one dict entry per recorded glyph, keyed by a GlyphName node of ITS name (the keys are distinct objects)
 _INV1 = {
     "len": f"len(src) == len(cursiveAnchors) and len(cursiveAnchors) == len({_KS})",
     "order": _ORDER + " and all(0 <= src[p] and src[p] < i for p in range(len(src)))",
-    "keys": f"all(allocated({_KS}[p]) and {_KS}[p].kind == 'GlyphName' and {_KS}[p].glyph == glyphs[src[p]].name for p in range(len({_KS})))",
+    "keys": f"all(allocated({_KS}[p]) and allocated({_V}[0]) and allocated({_V}[1]) and {_KS}[p].kind == 'GlyphName' and {_KS}[p].glyph == glyphs[src[p]].name"
+    f" and ({_V}[0] is None or {_V}[0].kind == 'Anchor') and ({_V}[1] is None or {_V}[1].kind == 'Anchor') for p in range(len({_KS})))",
 }
 _INV2 = {
     "len": "len(statements) == t",
-    "shape": "all(statements[u].kind == 'CursivePosStatement' and statements[u].glyphclass == KK[u] and statements[u].entryAnchor == cursiveAnchors[KK[u]][0]"
+    "shape": "all(allocated(statements[u]) and statements[u].kind == 'CursivePosStatement' and statements[u].glyphclass == KK[u] and statements[u].entryAnchor == cursiveAnchors[KK[u]][0]"
     " and statements[u].exitAnchor == cursiveAnchors[KK[u]][1] for u in range(t))",
+    # (the fields of the nodes are havocked by the loop: the facts of the first loop about the dict's nodes are carried along)
+    "keys": _INV1["keys"],
 }
 _SHAPE = "all(result[k].kind == 'CursivePosStatement' and result[k].glyphclass.kind == 'GlyphName' and result[k].glyphclass.glyph == glyphs[src[k]].name for k in range(len(result)))"
 
@@ -430,7 +435,7 @@ contract(
             "null-sides": "all(" + _null_iff(_V + "[0]", _V + "[1]", "glyphs[src[p]]") + f" for p in range(len({_KS})))",
             "complete": "all(implies(" + _present("glyphs[a]", "entry") + " or " + _present("glyphs[a]", "exit") + ", any(src[p] == a for p in range(len(src)))) for a in range(i))",
         }),
-        MCS_LOOP2: Loop(index="t", seq="KK", invariants=_INV2),
+        MCS_LOOP2: Loop(index="t", seq="KK", invariants={**_INV2, "len1": _INV1["len"]}),
     },
 )
 
@@ -441,7 +446,7 @@ for _k, _nm in ((0, "entry"), (1, "exit")):
         **{k: v for k, v in MCS_COMMON.items() if k != "hints"},
         ensures={
             "record-of-its-glyph": "len(src) == len(result) and all(0 <= src[k] and src[k] < len(glyphs) for k in range(len(result))) and " + _SHAPE,
-            f"{_nm}-anchor-at-rounded-coordinates": f"all(implies(result[k].{_nm}Anchor is not None, " + _coords(f"result[k].{_nm}Anchor", "glyphs[src[k]]", _nm) + ") for k in range(len(result)))",
+            f"{_nm}-anchor-at-rounded-coordinates": f"all(implies(result[k].{_nm}Anchor is not None, result[k].{_nm}Anchor.kind == 'Anchor' and " + _coords(f"result[k].{_nm}Anchor", "glyphs[src[k]]", _nm) + ") for k in range(len(result)))",
         },
         canaries={"never-empty": "len(result) > 0"},
         hints={MCS_PUT: MCS_COMMON["hints"][MCS_PUT] + [
@@ -450,13 +455,20 @@ for _k, _nm in ((0, "entry"), (1, "exit")):
             f"implies({_nm}Anchor is not None and " + _has_own("glyph", _nm) + f", any(glyph.anchors[f].name == {_nm}Name and all(glyph.anchors[b].name != {_nm}Name for b in range(f)) and {_nm}Anchor.x == c18_round(glyph.anchors[f].x) and {_nm}Anchor.y == c18_round(glyph.anchors[f].y) for f in range(len(glyph.anchors))))",
             f"implies({_nm}Anchor is not None and not " + _has_own("glyph", _nm) + f", any({_FG}[glyph.name].anchors[b].name == {_nm}Name and {_nm}Anchor.x == c18_round({_FG}[glyph.name].anchors[b].x) and {_nm}Anchor.y == c18_round({_FG}[glyph.name].anchors[b].y) for b in range(len({_FG}[glyph.name].anchors))))",
             f"implies({_nm}Anchor is not None, " + _coords(f"{_nm}Anchor", "glyph", _nm) + ")",
-            f"all(implies(c0[K0[p]][{_k}] is not None, " + _coords(f"c0[K0[p]][{_k}]", "glyphs[src[p]]", _nm) + ") for p in range(len(K0)))",
+            f"all(implies(c0[K0[p]][{_k}] is not None, " + _coords(f"c0[K0[p]][{_k}]", "glyphs[s0[p]]", _nm) + ") for p in range(len(K0)))",
+            # the same two facts in the vocabulary of the invariant (positions of the updated dict)
+            f"implies(cursiveAnchors[{_KS}[len(K0)]][{_k}] is not None, " + _coords(f"cursiveAnchors[{_KS}[len(K0)]][{_k}]", "glyphs[src[len(K0)]]", _nm) + ")",
+            f"all(implies(p == len(K0) and {_V}[{_k}] is not None, " + _coords(f"{_V}[{_k}]", "glyphs[src[p]]", _nm) + f") for p in range(len({_KS})))",
+            f"all(implies(p < len(K0) and {_V}[{_k}] is not None, " + _coords(f"{_V}[{_k}]", "glyphs[src[p]]", _nm) + f") for p in range(len({_KS})))",
         ]},
         loops={
             MCS_LOOP1: Loop(index="i", invariants={
                 **_INV1,
                 "coords": f"all(implies({_V}[{_k}] is not None, " + _coords(f"{_V}[{_k}]", "glyphs[src[p]]", _nm) + f") for p in range(len({_KS})))",
             }),
-            MCS_LOOP2: Loop(index="t", seq="KK", invariants=_INV2),
+            MCS_LOOP2: Loop(index="t", seq="KK", invariants={
+                **_INV2, "len1": _INV1["len"],
+                "coords": f"all(implies({_V}[{_k}] is not None, " + _coords(f"{_V}[{_k}]", "glyphs[src[p]]", _nm) + f") for p in range(len({_KS})))",
+            }),
         },
     )
